@@ -6,6 +6,7 @@ Open Scope Z_scope.
 Ltac Zify.zify_post_hook ::= Z.to_euclidean_division_equations.
 
 Arguments digit_char : simpl never.
+Local Notation D := digit_char.
 
 Definition isdig (d : Z) : Prop := 0 <= d <= 9.
 
@@ -112,3 +113,270 @@ Proof.
   apply atoi_body_pos; [discriminate| |unfold isdig in *; lia].
   rewrite !atoi_digits_dc by assumption. cbn [atoi_digits]. f_equal. lia.
 Qed.
+
+Lemma len_step_more n k v : (k + 2 <= n)%nat -> len_step n k v = More v.
+Proof.
+  unfold len_step. intros Hn. destruct (Nat.eqb_spec n k); [lia|].
+  destruct (Nat.eqb_spec n (S k)); [lia|]. reflexivity.
+Qed.
+
+Lemma parseYear_more y3 y2 y1 y0 rest :
+  isdig y3 -> isdig y2 -> isdig y1 -> isdig y0 -> (2 <= length rest)%nat ->
+  parseYear (D y3 :: D y2 :: D y1 :: D y0 :: rest) = More (1000 * y3 + 100 * y2 + 10 * y1 + y0).
+Proof.
+  intros H3 H2 H1 H0 Hl. unfold parseYear, slice. cbn [Nat.sub skipn firstn].
+  rewrite atoi_dc4 by assumption. apply len_step_more. cbn [length]. lia.
+Qed.
+
+Lemma parseMonth_more a0 a1 a2 a3 m1 m0 rest :
+  isdig m1 -> isdig m0 -> 1 <= 10 * m1 + m0 <= 12 -> (2 <= length rest)%nat ->
+  parseMonth (a0 :: a1 :: a2 :: a3 :: D m1 :: D m0 :: rest) = More (10 * m1 + m0).
+Proof.
+  intros H1 H0 Hr Hl. unfold parseMonth, slice. cbn [Nat.sub skipn firstn].
+  rewrite atoi_dc2 by assumption.
+  assert (E : ((10 * m1 + m0 <? 1) || (12 <? 10 * m1 + m0)) = false) by lia. rewrite E.
+  apply len_step_more. cbn [length]. lia.
+Qed.
+
+Lemma dim_le_31 y m : days_in_month y m <= 31.
+Proof.
+  unfold days_in_month.
+  repeat match goal with |- context [if ?c then _ else _] => destruct c end; lia.
+Qed.
+
+Lemma parseDay_more a0 a1 a2 a3 a4 a5 d1 d0 rest y m :
+  isdig d1 -> isdig d0 -> 1 <= 10 * d1 + d0 <= days_in_month y m -> (2 <= length rest)%nat ->
+  parseDay (a0 :: a1 :: a2 :: a3 :: a4 :: a5 :: D d1 :: D d0 :: rest) y m = More (10 * d1 + d0).
+Proof.
+  intros H1 H0 Hr Hl. unfold parseDay, slice. cbn [Nat.sub skipn firstn].
+  rewrite atoi_dc2 by assumption. pose proof (dim_le_31 y m) as Hd.
+  assert (E : ((10 * d1 + d0 <? 1) || (31 <? 10 * d1 + d0)) = false) by lia. rewrite E.
+  assert (E2 : (days_in_month y m <? 10 * d1 + d0) = false) by lia. rewrite E2.
+  apply len_step_more. cbn [length]. lia.
+Qed.
+
+Lemma parseHour_more a0 a1 a2 a3 a4 a5 a6 a7 h1 h0 rest :
+  isdig h1 -> isdig h0 -> 10 * h1 + h0 <= 23 -> (2 <= length rest)%nat ->
+  parseHour (a0 :: a1 :: a2 :: a3 :: a4 :: a5 :: a6 :: a7 :: D h1 :: D h0 :: rest) = More (10 * h1 + h0).
+Proof.
+  intros H1 H0 Hr Hl. unfold parseHour, slice. cbn [Nat.sub skipn firstn].
+  rewrite atoi_dc2 by assumption.
+  assert (E : (23 <? 10 * h1 + h0) = false) by lia. rewrite E.
+  apply len_step_more. cbn [length]. lia.
+Qed.
+
+Lemma parseMinute_more a0 a1 a2 a3 a4 a5 a6 a7 a8 a9 i1 i0 rest :
+  isdig i1 -> isdig i0 -> 10 * i1 + i0 <= 59 -> (2 <= length rest)%nat ->
+  parseMinute (a0 :: a1 :: a2 :: a3 :: a4 :: a5 :: a6 :: a7 :: a8 :: a9 :: D i1 :: D i0 :: rest) = More (10 * i1 + i0).
+Proof.
+  intros H1 H0 Hr Hl. unfold parseMinute, slice. cbn [Nat.sub skipn firstn].
+  rewrite atoi_dc2 by assumption.
+  assert (E : (59 <? 10 * i1 + i0) = false) by lia. rewrite E.
+  apply len_step_more. cbn [length]. lia.
+Qed.
+
+Lemma parseSecond_more a0 a1 a2 a3 a4 a5 a6 a7 a8 a9 a10 a11 s1 s0 r0 rest :
+  isdig s1 -> isdig s0 -> 10 * s1 + s0 <= 59 ->
+  parseSecond (a0 :: a1 :: a2 :: a3 :: a4 :: a5 :: a6 :: a7 :: a8 :: a9 :: a10 :: a11 :: D s1 :: D s0 :: r0 :: rest)
+  = SMore (10 * s1 + s0) 14.
+Proof.
+  intros H1 H0 Hr. unfold parseSecond, slice. cbn [nth]. rewrite dc_tzsep by assumption.
+  cbn [Nat.sub skipn firstn]. rewrite atoi_dc2 by assumption.
+  assert (E : (59 <? 10 * s1 + s0) = false) by lia. rewrite E.
+  cbn [length]. destruct (Nat.eqb_spec (S (S (S (S (S (S (S (S (S (S (S (S (S (S (S (length rest)))))))))))))))) 14); [lia|].
+  reflexivity.
+Qed.
+Lemma split_on_ne sep b r : (b =? sep)%N = false ->
+  split_on sep (b :: r) = match split_on sep r with [] => [[b]] | h :: t => (b :: h) :: t end.
+Proof. intros E. cbn [split_on]. rewrite E. reflexivity. Qed.
+
+Lemma split_on_eq sep r : split_on sep (sep :: r) = [] :: split_on sep r.
+Proof. cbn [split_on]. rewrite N.eqb_refl. reflexivity. Qed.
+
+Lemma parseTimezone_full a0 a1 a2 a3 a4 a5 a6 a7 a8 a9 a10 a11 a12 a13 sg z1 z0 w1 w0 :
+  isdig z1 -> isdig z0 -> isdig w1 -> isdig w0 -> 10 * z1 + z0 <= 23 -> 10 * w1 + w0 <= 59 ->
+  sg = b_plus \/ sg = b_minus ->
+  parseTimezone (a0 :: a1 :: a2 :: a3 :: a4 :: a5 :: a6 :: a7 :: a8 :: a9 :: a10 :: a11 :: a12 :: a13 ::
+                 sg :: D z1 :: D z0 :: b_apos :: D w1 :: D w0 :: [b_apos]) 14
+  = Some (if (sg =? b_minus)%N then ((10 * z1 + z0) * -1, (10 * w1 + w0) * -1) else (10 * z1 + z0, 10 * w1 + w0)).
+Proof.
+  intros Hz1 Hz0 Hw1 Hw0 Hh Hm Hsg. unfold parseTimezone. cbn [nth length skipn].
+  assert (Esep : timezoneSeparator sg = true) by (destruct Hsg; subst; reflexivity).
+  assert (EZ : (sg =? b_Z)%N = false) by (destruct Hsg; subst; reflexivity).
+  rewrite Esep. cbn [negb orb Nat.eqb is_nil].
+  unfold b_minus at 1. rewrite dc_neq by (auto; lia).
+  cbn [map]. unfold b_sp. rewrite !dc_neq by (auto; lia).
+  change ((b_apos =? 32)%N) with false. cbv iota.
+  unfold b_apos at 1. rewrite split_on_ne by (apply dc_neq; auto; lia).
+  rewrite split_on_ne by (apply dc_neq; auto; lia).
+  fold b_apos. rewrite split_on_eq.
+  unfold b_apos at 1. rewrite split_on_ne by (apply dc_neq; auto; lia).
+  rewrite split_on_ne by (apply dc_neq; auto; lia).
+  fold b_apos. rewrite split_on_eq. cbn [split_on].
+  unfold parseTimezoneHours, parseTimezoneMinutes. rewrite !atoi_dc2 by assumption. rewrite EZ.
+  cbn [andb is_nil].
+  assert (E1 : Z.rem (10 * z1 + z0) 24 = 10 * z1 + z0) by (unfold isdig in *; lia). rewrite E1.
+  assert (E2 : (59 <? 10 * w1 + w0) = false) by lia. rewrite E2.
+  destruct (sg =? b_minus)%N; reflexivity.
+Qed.
+Lemma trim_right0_id l : l <> [] -> last l 0%N <> 0%N -> trim_right0 l = l.
+Proof.
+  induction l as [|a l IH]; [congruence|]. intros _ Hlast.
+  destruct l as [|b r].
+  - cbn in Hlast |- *. destruct (N.eqb_spec a 0); [contradiction | reflexivity].
+  - change (last (a :: b :: r) 0%N) with (last (b :: r) 0%N) in Hlast.
+    cbn [trim_right0]. cbn [trim_right0] in IH. rewrite IH by (congruence || assumption).
+    reflexivity.
+Qed.
+
+Lemma dec2_dig x : 0 <= x <= 99 -> isdig (x / 10) /\ isdig (x mod 10) /\ 10 * (x / 10) + x mod 10 = x.
+Proof. unfold isdig. intros Hx. lia. Qed.
+
+Lemma dec4_dig x : 0 <= x <= 9999 ->
+  isdig (x / 1000) /\ isdig (x / 100 mod 10) /\ isdig (x / 10 mod 10) /\ isdig (x mod 10) /\
+  1000 * (x / 1000) + 100 * (x / 100 mod 10) + 10 * (x / 10 mod 10) + x mod 10 = x.
+Proof. unfold isdig. intros Hx. lia. Qed.
+
+Lemma DateTime_iso y mo d h mi s sg zh zm :
+  0 <= y <= 9999 -> 1 <= mo <= 12 -> 1 <= d <= days_in_month y mo ->
+  0 <= h <= 23 -> 0 <= mi <= 59 -> 0 <= s <= 59 ->
+  sg = b_plus \/ sg = b_minus -> 0 <= zh <= 23 -> 0 <= zm <= 59 ->
+  DateTime (iso_string y mo d h mi s sg zh zm) = DOk (Civil y mo d h mi s (signed_off sg zh zm)).
+Proof.
+  intros Hy Hmo Hd Hh Hmi Hs Hsg Hzh Hzm.
+  pose proof (dim_le_31 y mo) as Hdim.
+  destruct (dec4_dig y Hy) as (Y3 & Y2 & Y1 & Y0 & EY).
+  destruct (dec2_dig mo ltac:(lia)) as (M1 & M0 & EM).
+  destruct (dec2_dig d ltac:(lia)) as (D1 & D0 & ED).
+  destruct (dec2_dig h ltac:(lia)) as (H1 & H0 & EH).
+  destruct (dec2_dig mi ltac:(lia)) as (I1 & I0 & EI).
+  destruct (dec2_dig s ltac:(lia)) as (S1 & S0 & ES).
+  destruct (dec2_dig zh ltac:(lia)) as (Z1 & Z0 & EZ).
+  destruct (dec2_dig zm ltac:(lia)) as (W1 & W0 & EW).
+  unfold iso_string, dec4, dec2. cbn [app].
+  unfold DateTime, prevalidate_strict.
+  cbn [has_prefix]. change ((254 =? b_D)%N) with false. cbn [andb].
+  unfold trim_prefix. cbn [has_prefix]. change ((239 =? b_D)%N) with false. cbn [andb].
+  rewrite trim_right0_id by (cbn [last]; discriminate).
+  cbn [length Nat.ltb Nat.leb]. cbn [has_prefix]. rewrite !N.eqb_refl. cbn [andb skipn].
+  rewrite parseYear_more by (assumption || (cbn [length]; lia)).
+  rewrite parseMonth_more by (assumption || (cbn [length]; lia) || lia).
+  rewrite EY, EM.
+  rewrite parseDay_more by (assumption || (cbn [length]; lia) || lia).
+  rewrite parseHour_more by (assumption || (cbn [length]; lia) || lia).
+  rewrite parseMinute_more by (assumption || (cbn [length]; lia) || lia).
+  rewrite parseSecond_more by (assumption || lia).
+  rewrite parseTimezone_full by (assumption || lia).
+  rewrite ED, EH, EI, ES, EZ, EW. unfold signed_off.
+  destruct (sg =? b_minus)%N; do 2 f_equal; lia.
+Qed.
+
+(* sign byte, zone hours and zone minutes that DateString prints for an offset *)
+Definition off_sign (off : Z) : N := if off <? 0 then b_minus else b_plus.
+Definition off_hours (off : Z) : Z := Z.abs off / 3600.
+Definition off_minutes (off : Z) : Z := Z.abs off / 60 mod 60.
+
+Lemma DateString_iso t : in_scope t ->
+  DateString t = iso_string (cy t) (cmo t) (cd t) (ch t) (cmi t) (cs t)
+                            (off_sign (coff t)) (off_hours (coff t)) (off_minutes (coff t)).
+Proof.
+  intros (Hy & (Hmo & Hd & Hh & Hmi & Hs) & Hrem & Hoff).
+  pose proof (dim_le_31 (cy t) (cmo t)) as Hdim.
+  unfold DateString, iso_string, off_sign, off_hours, off_minutes.
+  rewrite fmt0_4 by assumption.
+  rewrite (fmt0_2 (cmo t)) by lia. rewrite (fmt0_2 (cd t)) by lia. rewrite (fmt0_2 (ch t)) by lia.
+  rewrite (fmt0_2 (cmi t)) by lia. rewrite (fmt0_2 (cs t)) by lia.
+  set (off := coff t) in *.
+  assert (Ek : off = 60 * Z.quot off 60) by lia.
+  set (k := Z.quot off 60) in *.
+  assert (Es : (k <? 0) = (off <? 0)) by lia. rewrite Es.
+  assert (Eh : Z.quot (if off <? 0 then - k else k) 60 = Z.abs off / 3600) by (destruct (Z.ltb_spec off 0); lia).
+  assert (Em : Z.rem (if off <? 0 then - k else k) 60 = Z.abs off / 60 mod 60) by (destruct (Z.ltb_spec off 0); lia).
+  rewrite Eh, Em.
+  rewrite (fmt0_2 (Z.abs off / 3600)) by lia. rewrite (fmt0_2 (Z.abs off / 60 mod 60)) by lia.
+  reflexivity.
+Qed.
+
+Lemma off_fields off : Z.rem off 60 = 0 -> -86400 < off < 86400 ->
+  (off_sign off = b_plus \/ off_sign off = b_minus) /\ 0 <= off_hours off <= 23 /\ 0 <= off_minutes off <= 59 /\
+  signed_off (off_sign off) (off_hours off) (off_minutes off) = off.
+Proof.
+  intros Hrem Hoff. unfold off_sign, off_hours, off_minutes, signed_off.
+  destruct (Z.ltb_spec off 0) as [Hn|Hn].
+  - change ((b_minus =? b_minus)%N) with true. cbv iota. repeat split; auto; lia.
+  - change ((b_plus =? b_minus)%N) with false. cbv iota. repeat split; auto; lia.
+Qed.
+
+Lemma date_roundtrip t : in_scope t -> DateTime (DateString t) = DOk t.
+Proof.
+  intros Hin. rewrite DateString_iso by assumption.
+  destruct Hin as (Hy & (Hmo & Hd & Hh & Hmi & Hs) & Hrem & Hoff).
+  destruct (off_fields (coff t) Hrem Hoff) as (Hsg & Hzh & Hzm & Eoff).
+  rewrite DateTime_iso by assumption. rewrite Eoff. destruct t; reflexivity.
+Qed.
+
+Lemma datestring_valid t : in_scope t ->
+  exists sg zh zm,
+    DateString t = iso_string (cy t) (cmo t) (cd t) (ch t) (cmi t) (cs t) sg zh zm /\
+    (sg = b_plus \/ sg = b_minus) /\ 0 <= zh <= 23 /\ 0 <= zm <= 59 /\
+    signed_off sg zh zm = coff t.
+Proof.
+  intros Hin. exists (off_sign (coff t)), (off_hours (coff t)), (off_minutes (coff t)).
+  split; [apply DateString_iso; assumption|].
+  destruct Hin as (_ & _ & Hrem & Hoff). apply off_fields; assumption.
+Qed.
+
+Lemma num2_dc a b : isdig a -> isdig b -> num2 (D a) (D b) = Some (10 * a + b).
+Proof. intros Ha Hb. unfold num2, dig. rewrite !char_digit_dc by assumption. reflexivity. Qed.
+
+Lemma in_rng_some lo hi v : lo <= v <= hi -> in_rng lo hi (Some v) = true.
+Proof. unfold in_rng. lia. Qed.
+
+Lemma iso_full_b_iso y mo d h mi s sg zh zm :
+  0 <= y <= 9999 -> 1 <= mo <= 12 -> 1 <= d <= days_in_month y mo ->
+  0 <= h <= 23 -> 0 <= mi <= 59 -> 0 <= s <= 59 ->
+  sg = b_plus \/ sg = b_minus -> 0 <= zh <= 23 -> 0 <= zm <= 59 ->
+  iso_full_b (iso_string y mo d h mi s sg zh zm) = true.
+Proof.
+  intros Hy Hmo Hd Hh Hmi Hs Hsg Hzh Hzm.
+  pose proof (dim_le_31 y mo) as Hdim.
+  destruct (dec4_dig y Hy) as (Y3 & Y2 & Y1 & Y0 & EY).
+  destruct (dec2_dig mo ltac:(lia)) as (M1 & M0 & EM).
+  destruct (dec2_dig d ltac:(lia)) as (D1 & D0 & ED).
+  destruct (dec2_dig h ltac:(lia)) as (H1 & H0 & EH).
+  destruct (dec2_dig mi ltac:(lia)) as (I1 & I0 & EI).
+  destruct (dec2_dig s ltac:(lia)) as (S1 & S0 & ES).
+  destruct (dec2_dig zh ltac:(lia)) as (Z1 & Z0 & EZ).
+  destruct (dec2_dig zm ltac:(lia)) as (W1 & W0 & EW).
+  unfold iso_string, dec4, dec2. cbn [app]. unfold iso_full_b.
+  rewrite !num2_dc by assumption. rewrite !N.eqb_refl.
+  rewrite EM, ED, EH, EI, ES, EZ, EW.
+  replace (100 * (10 * (y / 1000) + y / 100 mod 10) + (10 * (y / 10 mod 10) + y mod 10)) with y by lia.
+  rewrite !in_rng_some by lia.
+  assert (Esg : ((sg =? b_plus)%N || (sg =? b_minus)%N) = true) by (destruct Hsg; subst; reflexivity).
+  rewrite Esg. cbn [andb].
+  lia.
+Qed.
+
+Lemma datestring_iso_full t : in_scope t -> iso_full_b (DateString t) = true.
+Proof.
+  intros Hin. rewrite DateString_iso by assumption.
+  destruct Hin as (Hy & (Hmo & Hd & Hh & Hmi & Hs) & Hrem & Hoff).
+  destruct (off_fields (coff t) Hrem Hoff) as (Hsg & Hzh & Hzm & _).
+  apply iso_full_b_iso; assumption.
+Qed.
+
+Lemma datestring_injective t1 t2 : in_scope t1 -> in_scope t2 -> DateString t1 = DateString t2 -> t1 = t2.
+Proof.
+  intros H1 H2 E. pose proof (date_roundtrip t1 H1) as R1. rewrite E, (date_roundtrip t2 H2) in R1.
+  congruence.
+Qed.
+
+(* the bounds of the scope are needed: outside them the round trip fails in the model
+   (year with five digits; offset of 24h; offset with seconds) *)
+Lemma scope_tight :
+  DateTime (DateString (Civil 10000 1 1 0 0 0 0)) <> DOk (Civil 10000 1 1 0 0 0 0) /\
+  DateTime (DateString (Civil 2024 1 1 0 0 0 86400)) <> DOk (Civil 2024 1 1 0 0 0 86400) /\
+  DateTime (DateString (Civil 2024 1 1 0 0 0 (-86400))) <> DOk (Civil 2024 1 1 0 0 0 (-86400)) /\
+  DateTime (DateString (Civil 2024 1 1 0 0 0 30)) <> DOk (Civil 2024 1 1 0 0 0 30).
+Proof. vm_compute. repeat split; discriminate. Qed.
